@@ -74,6 +74,18 @@ CHECKS = {
         "assumptions": COMMON_ASSUME,
         "design_ref": "DESIGN.md §5 C15",
     },
+    "C17": {
+        "level": "model_checking", "shards": 7, "deadline_quick": 100, "deadline_thorough": 1500,
+        "engine": "E-SEQ (mcache) + E-WORLD",
+        "technique": "explicit-state model checking of the implementation: BFS by replay of the real MessageCache vs. a list-of-lists reference, and around one real gossipsub node with a window/cap monitor on the wire log",
+        "rule": WORLD_RULE,
+        "level_text": "every mcache operation sequence up to the depth bound for three (gossip,history) settings; every node history up to the depth bound over forwards, local publishes, heartbeats, "
+                      "IHAVE / IWANT / IDONTWANT with repetition beyond every cap, score levels on both sides of the gossip threshold and time advances across the promise follow-up time; "
+                      "window arithmetic in heartbeats, per-heartbeat counter reset, IWANT service rules, IDONTWANT emission/TTL and the if-and-only-if of promise penalties are judged from the wire log and snapshots",
+        "level_note": "IHAVE completeness is only required where peer selection is exhaustive (<= Dlazy eligible peers); IDONTWANT TTL and flood-protection counters are read from the router state",
+        "assumptions": COMMON_ASSUME,
+        "design_ref": "DESIGN.md §5 C17",
+    },
     "C18": {
         "level": "model_checking", "shards": 2, "deadline_quick": 100, "deadline_thorough": 1200,
         "engine": "E-WORLD",
